@@ -547,7 +547,7 @@ theorem spec_present (l : List KV) (hd : Desc tokCmp l) (old : KV) (q v : Tok) (
     (descent, in-place assignment onto the node with an equal key, or a fresh node followed by `Tree_Set_Fix`: recolouring
     and rotations up the parent chain) never dereferences NULL, constructs / assigns in place exactly the tokens
     `treeSet` says, and the resulting tree is valid and holds exactly `treeSet`'s pairs. -/
-theorem treeSetC_refines {m : CTree} {kvs : List KV} (R : AbsR m kvs) (next k v : Nat) :
+theorem treeSetC_refines (hsrc : SourceOk) {m : CTree} {kvs : List KV} (R : AbsR m kvs) (next k v : Nat) :
     ∃ r, treeSetC next m k v = some r ∧ ResRel AbsR r (treeSet next kvs k v) := by
   obtain ⟨hv, hs, hp⟩ := R
   have hf := findKV_abs ⟨hv, hs, hp⟩ k
@@ -555,7 +555,7 @@ theorem treeSetC_refines {m : CTree} {kvs : List KV} (R : AbsR m kvs) (next k v 
   cases hq : takeFirst (keyIs k) kvs with
   | none =>
     rw [hq] at hf
-    obtain ⟨m', e, hv', ha, hs'⟩ := set_valid (cmp := tokCmp) m ⟨next, k⟩ ⟨next + 1, v⟩ hv (by rw [hs]; exact fits_probe _ _)
+    obtain ⟨m', e, hv', ha, hs'⟩ := set_valid (cmp := tokCmp) hsrc m ⟨next, k⟩ ⟨next + 1, v⟩ hv (by rw [hs]; exact fits_probe _ _)
     have he : treeSetC next m k v = some (Res.mk m' [⟨next, k⟩, ⟨next + 1, v⟩] [] [] .ok) := by
       simp only [treeSetC, hf, Option.map, e]
     refine ⟨_, he, ⟨hv', by rw [hs', hs], ?_⟩, rfl, Perm.refl _, rfl, rfl⟩
@@ -569,7 +569,7 @@ theorem treeSetC_refines {m : CTree} {kvs : List KV} (R : AbsR m kvs) (next k v 
     obtain ⟨old, rest⟩ := q
     rw [hq] at hf
     obtain ⟨hpk, hk⟩ := takeKey_some hq
-    obtain ⟨m', e, hv', ha, hs'⟩ := set_valid (cmp := tokCmp) m (assignProbe next old.1 k).val
+    obtain ⟨m', e, hv', ha, hs'⟩ := set_valid (cmp := tokCmp) hsrc m (assignProbe next old.1 k).val
       (assignProbe (next + (assignProbe next old.1 k).issued.length) old.2 v).val hv (by rw [hs]; exact fits_probe _ _)
     have he : treeSetC next m k v = some (Res.mk m'
         ((assignProbe next old.1 k).issued ++ (assignProbe (next + (assignProbe next old.1 k).issued.length) old.2 v).issued) []
@@ -588,11 +588,11 @@ theorem treeSetC_refines {m : CTree} {kvs : List KV} (R : AbsR m kvs) (next k v 
     key; otherwise exactly the found pair is destructed and — after the predecessor's block has been copied into a node
     with two children, the spliced-out node unlinked and `Tree_Rem_Fix` run — the tree is valid and holds exactly the
     remaining pairs: the copy moved the predecessor's two tokens whole, none was dropped or doubled. -/
-theorem treeRemC_refines {m : CTree} {kvs : List KV} (R : AbsR m kvs) (k : Nat) :
+theorem treeRemC_refines (hsrc : SourceOk) {m : CTree} {kvs : List KV} (R : AbsR m kvs) (k : Nat) :
     ∃ r, treeRemC m k = some r ∧ ResRel AbsR r (mapRem kvs k) := by
   obtain ⟨hv, hs, hp⟩ := R
   have hf := findKV_abs ⟨hv, hs, hp⟩ k
-  obtain ⟨m', o, e, hv', hs', hcase⟩ := rem_valid (cmp := tokCmp) m (argTok k) hv
+  obtain ⟨m', o, e, hv', hs', hcase⟩ := rem_valid (cmp := tokCmp) hsrc m (argTok k) hv
   cases hq : takeFirst (keyIs k) kvs with
   | none =>
     simp only [mapRem, hq]
@@ -648,13 +648,13 @@ theorem remFix_moves (p p' : Path Tok Tok) (h : remFix p = some p') (t : T Tok T
 /-- **the predecessor copy of `Tree_Rem` carries both elements whole**: the block `header | key | header | value` that the
     `memcpy` moves from the predecessor into the node decodes, at the node's `Tree_Key` / `Tree_Val` offsets, to exactly
     the predecessor's key token and value token (payload *and* identity) — for every header width -/
-theorem relocate_moves (hdr : Nat) (dst src : KV) : relocate (⟨hdr, 2, 2⟩ : Lay) dst src = some src :=
-  relocate_fits _ _ _ ⟨rfl, rfl⟩
+theorem relocate_moves (hl : LayoutOk) (hdr : Nat) (dst src : KV) : relocate (⟨hdr, 2, 2⟩ : Lay) dst src = some src :=
+  relocate_fits hl _ _ _ ⟨rfl, rfl⟩
 
 /-! ### constructor with initial pairs, assignment from another map -/
 
 /-- **a run of `Tree_Set`s = `mapSetMany .tree`** -/
-theorem treeFillC_refines : ∀ (ps : List (Nat × Nat)) (next : Nat) (m : CTree) (kvs : List KV), AbsR m kvs →
+theorem treeFillC_refines (hsrc : SourceOk) : ∀ (ps : List (Nat × Nat)) (next : Nat) (m : CTree) (kvs : List KV), AbsR m kvs →
     ∃ r, treeFillC next m ps = some r ∧ ResRel AbsR r (mapSetMany .tree next kvs ps) := by
   intro ps
   induction ps with
@@ -662,7 +662,7 @@ theorem treeFillC_refines : ∀ (ps : List (Nat × Nat)) (next : Nat) (m : CTree
   | cons p ps ih =>
     intro next m kvs R
     obtain ⟨k, v⟩ := p
-    obtain ⟨r1, e1, g1, g2, g3, g4, g5⟩ := treeSetC_refines R next k v
+    obtain ⟨r1, e1, g1, g2, g3, g4, g5⟩ := treeSetC_refines hsrc R next k v
     obtain ⟨r2, e2, f1, f2, f3, f4, f5⟩ := ih (next + r1.issued.length) r1.val _ g1
     refine ⟨Res.mk r2.val (r1.issued ++ r2.issued) (r1.retired ++ r2.retired) (r1.updated ++ r2.updated) .ok,
       by simp only [treeFillC, e1, e2], ?_⟩
@@ -671,10 +671,10 @@ theorem treeFillC_refines : ∀ (ps : List (Nat × Nat)) (next : Nat) (m : CTree
     exact ⟨f1, by rw [f2], g3.append f3, by rw [g4, f4], rfl⟩
 
 /-- **`Tree_Assign` from another map = `mapAssign .tree`** -/
-theorem treeAssignC_refines {m : CTree} {kvs : List KV} (R : AbsR m kvs) (next : Nat) (src : List KV) :
+theorem treeAssignC_refines (hsrc : SourceOk) {m : CTree} {kvs : List KV} (R : AbsR m kvs) (next : Nat) (src : List KV) :
     ∃ r, treeAssignC next m (src.map (fun kv => (kv.1.pay, kv.2.pay))) = some r ∧
       ResRel AbsR r (mapAssign .tree next kvs src) := by
-  obtain ⟨r, e, h1, h2, h3, h4, h5⟩ := treeFillC_refines (src.map (fun kv => (kv.1.pay, kv.2.pay))) next treeEmpty [] absR_empty
+  obtain ⟨r, e, h1, h2, h3, h4, h5⟩ := treeFillC_refines hsrc (src.map (fun kv => (kv.1.pay, kv.2.pay))) next treeEmpty [] absR_empty
   refine ⟨{ r with retired := treeToks m ++ r.retired }, by simp only [treeAssignC, e, Option.map], ?_⟩
   simp only [mapAssign]
   exact ⟨h1, h2, (treeToks_perm R).append h3, h4, h5.trans (mapSetMany_out _ _ _ _)⟩
@@ -682,24 +682,24 @@ theorem treeAssignC_refines {m : CTree} {kvs : List KV} (R : AbsR m kvs) (next :
 
 /-! ### histories -/
 
-theorem treeStepC_refines {m : CTree} {kvs : List KV} (R : AbsR m kvs) (next : Nat) (op : MOp) :
+theorem treeStepC_refines (hsrc : SourceOk) {m : CTree} {kvs : List KV} (R : AbsR m kvs) (next : Nat) (op : MOp) :
     ∃ r, treeStepC next m op = some r ∧ ResRel AbsR r (absStep .tree next kvs op) := by
   cases op with
-  | set k v => exact treeSetC_refines R next k v
-  | rem k => exact treeRemC_refines R k
+  | set k v => exact treeSetC_refines hsrc R next k v
+  | rem k => exact treeRemC_refines hsrc R k
   | resize n => exact ⟨_, rfl, treeResizeC_refines R n⟩
-  | assign src => exact treeAssignC_refines R next src
+  | assign src => exact treeAssignC_refines hsrc R next src
 
 /-- **every history of `set / rem / resize / assign` on one Tree**: the red-black model never dereferences NULL, and step
     by step it produces the events of, and holds the contents of, the association-list model of Cello/Own.lean -/
-theorem treeRunC_refines : ∀ (ops : List MOp) (next : Nat) (m : CTree) (kvs : List KV), AbsR m kvs →
+theorem treeRunC_refines (hsrc : SourceOk) : ∀ (ops : List MOp) (next : Nat) (m : CTree) (kvs : List KV), AbsR m kvs →
     ∃ rs, treeRunC next m ops = some rs ∧ List.Forall₂ (ResRel AbsR) rs (absRun .tree next kvs ops) := by
   intro ops
   induction ops with
   | nil => intro next m kvs _; exact ⟨[], rfl, List.Forall₂.nil⟩
   | cons op ops ih =>
     intro next m kvs R
-    obtain ⟨r, e, h⟩ := treeStepC_refines R next op
+    obtain ⟨r, e, h⟩ := treeStepC_refines hsrc R next op
     obtain ⟨rs, e2, h2⟩ := ih (next + r.issued.length) r.val _ h.1
     refine ⟨r :: rs, by simp only [treeRunC, e, e2], ?_⟩
     simp only [absRun]
